@@ -45,6 +45,10 @@ func init() {
 		if p := filepath.Join(c07Root(), "lean", ".lake", "build", "bin", "driver"); c07FileExists(p) {
 			driverPath = p
 		}
+		if c.Ans == "ctx" {
+			c07swPrivateFailureProbe(r)
+			return
+		}
 		c07swBatch(r, []c07swCase{c})
 	}
 }
@@ -52,7 +56,7 @@ func init() {
 type c07swCase struct {
 	Double int    `json:"double"` // goroutines that find the entry in the double check (under Lock)
 	Fast   int    `json:"fast"`   // goroutines that find it on the fast path (under RLock)
-	Ans    string `json:"ans"`    // how the preparation ends: ok | err
+	Ans    string `json:"ans"`    // how the preparation ends: ok | err | ctx (probe: only the PREPARER's own context is cancelled)
 	Tx     bool   `json:"tx"`     // through a PreparedStmtTX each (Transaction entries)
 	Fin    string `json:"fin"`    // exec | query | row
 }
@@ -183,6 +187,11 @@ func c07swRunReal(c c07swCase) c07swObs {
 		gids[t] = c07CurGID()
 		started <- t
 		ctx := context.WithValue(context.Background(), c07swKey{}, t)
+		if c.Ans == "ctx" && t == 0 { // the preparer's own context is already cancelled; everybody else's is live
+			cctx, cancel := context.WithCancel(ctx)
+			cancel()
+			ctx = cctx
+		}
 		results[t] = c07Guard(func() string {
 			class := func(err error) string {
 				switch {
@@ -190,6 +199,8 @@ func c07swRunReal(c c07swCase) c07swObs {
 					return "rows"
 				case errors.Is(err, errC07swRefused):
 					return "prepErr"
+				case errors.Is(err, context.Canceled):
+					return "ctxCanceled"
 				default:
 					return "err:" + err.Error()
 				}
@@ -475,10 +486,40 @@ func c07swBatch(r *Result, cases []c07swCase) {
 	}
 }
 
+// c07swPrivateFailureProbe re-confirms finding F31 on the real statement cache: the PREPARER's PrepareContext fails for a reason
+// that is private to that goroutine (its own context is cancelled — database/sql answers context.Canceled by itself), two
+// goroutines with live contexts wait for it on the fast path: alone each of them gets its rows, here they get the preparer's
+// "context canceled".  (The generators keep out of the pattern: at one operation index all goroutines share the context state.)
+func c07swPrivateFailureProbe(r *Result) {
+	c := c07swCase{Double: 0, Fast: 2, Ans: "ctx", Tx: false, Fin: "query"}
+	obs := c07swRunReal(c)
+	if obs.Status != "ok" || obs.Preparer != 0 || len(obs.Results) != 3 {
+		r.Note("probe F31 (private preparation failure broadcast): inconclusive: %s", obs.Status)
+		return
+	}
+	r.Case("stmtwait-probe", canon(c), true)
+	waiters := obs.Results[1:]
+	switch {
+	case obs.Results[0] == "ctxCanceled" && waiters[0] == "ctxCanceled" && waiters[1] == "ctxCanceled":
+		what := "goroutines with a live context that waited for another goroutine's PrepareContext return THAT goroutine's \"context canceled\" (alone they return their rows)"
+		if listed("F31-C07-prepare-failure-broadcast") {
+			r.KnownFinding("F31-C07-prepare-failure-broadcast", what)
+		} else {
+			r.Violate(Violation{Kind: "e2e", Suite: "stmtwait", Input: c, Observed: obs.Results, Expected: "[ctxCanceled rows rows]", Note: what})
+		}
+	case waiters[0] == "rows" && waiters[1] == "rows":
+		r.Note("probe F31: did not reproduce — the waiters returned their rows (results %v)", obs.Results)
+	default:
+		r.Violate(Violation{Kind: "e2e", Suite: "stmtwait", Input: c, Observed: obs.Results, Expected: "[ctxCanceled rows rows] (or, listed finding F31, [ctxCanceled ctxCanceled ctxCanceled])",
+			Note: "waiters on a preparation that failed for the preparer's private reason returned neither their rows nor the preparer's error"})
+	}
+}
+
 func c07StmtWait(r *Result, rng *rand.Rand, tier string) {
 	if o := os.Getenv("C07_ONLY"); o != "" && o != "stmtwait" {
 		return
 	}
+	c07swPrivateFailureProbe(r)
 	var cases []c07swCase
 	maxN := 3
 	if tier == "thorough" {
